@@ -20,7 +20,9 @@ import (
 	"ssvharness/internal/common"
 )
 
-var servers = []string{"direct", "none", "socks5", "socks5auth", "http", "httpauth", "ss2022"}
+var servers = []string{"direct", "none", "socks5", "socks5auth", "http", "httpauth", "ss2022", "ss2022mu"}
+
+func isSS(server string) bool { return server == "ss2022" || server == "ss2022mu" }
 var clients = []string{"direct", "directtfo", "socks5", "http", "none", "ss2022"}
 
 func chained(c string) bool { return c != "direct" && c != "directtfo" }
@@ -42,12 +44,27 @@ func genScenario(r *common.Rng, ev *env, idx int) Scenario {
 	sc.DisableWait = r.Chance(1, 8)
 	sc.DomainAddr = r.Bool()
 	sc.GapMs = common.Pick(r, []int{0, 0, 1, 3})
-	if sc.Server == "ss2022" {
+	if isSS(sc.Server) {
 		sc.ReqLen = common.Pick(r, []int{0, 0, 1, 100, 1400, 5000, 70000})
 	}
 	buf := sc.Buf
 	if buf == 0 {
 		buf = 1440
+	}
+	if (sc.Server == "http" || sc.Server == "httpauth") && r.Chance(1, 2) {
+		// plain-HTTP proxying (non-CONNECT) through the relay
+		sc.Plain = true
+		sc.Timing, sc.CloseFirst = "early", "client"
+		sc.FirstLen = common.Pick(r, []int{0, 1, 100, buf, 5000, 70000})
+		sc.TargetLens = []int{common.Pick(r, []int{0, 1, 1000, 50000})}
+		if r.Chance(1, 5) {
+			if chained(sc.Client) {
+				sc.Fail = common.Pick(r, []string{"refused", "reject"})
+			} else {
+				sc.Fail = common.Pick(r, []string{"refused", "reject", "dns"})
+			}
+		}
+		return sc
 	}
 	if r.Chance(1, 4) {
 		var kinds []string
@@ -104,7 +121,7 @@ func genScenario(r *common.Rng, ev *env, idx int) Scenario {
 		sc.ClientLens = nil
 		sc.CloseFirst = "client"
 	}
-	if (sc.Timing == "never" || sc.Server == "ss2022" || sc.Client == "ss2022") && len(sc.TargetLens) == 0 {
+	if (sc.Timing == "never" || isSS(sc.Server) || sc.Client == "ss2022") && len(sc.TargetLens) == 0 {
 		// a Shadowsocks 2022 response needs a first byte to carry its header; a server-speaks-first target needs something to say
 		sc.TargetLens = []int{common.Pick(r, sizes)}
 	}
@@ -114,7 +131,7 @@ func genScenario(r *common.Rng, ev *env, idx int) Scenario {
 	// every fifth success scenario ends with a copy error after data was relayed
 	if r.Chance(1, 4) && sc.Timing != "eofdata" && sc.Timing != "eofempty" {
 		kinds := []string{"target", "target", "wclosed"}
-		if sc.Server != "ss2022" { // the harness needs the raw socket of its client connection to abort it
+		if !isSS(sc.Server) { // the harness needs the raw socket of its client connection to abort it
 			kinds = append(kinds, "client", "client")
 		}
 		sc.Reset = common.Pick(r, kinds)
@@ -140,8 +157,8 @@ func genScenario(r *common.Rng, ev *env, idx int) Scenario {
 }
 
 func sig(sc *Scenario) string {
-	return fmt.Sprintf("%s>%s dis=%v buf=%d req=%d %s first=%d c=%v t=%v tf=%v close=%s post=%d fail=%s/%d reset=%s", sc.Server, sc.Client, sc.DisableWait, sc.Buf,
-		sc.ReqLen, sc.Timing, sc.FirstLen, sc.ClientLens, sc.TargetLens, sc.TargetFirst, sc.CloseFirst, sc.PostEOFLen, sc.Fail, sc.UpCode, sc.Reset)
+	return fmt.Sprintf("%s>%s dis=%v buf=%d req=%d %s first=%d c=%v t=%v tf=%v close=%s post=%d fail=%s/%d reset=%s plain=%v", sc.Server, sc.Client, sc.DisableWait, sc.Buf,
+		sc.ReqLen, sc.Timing, sc.FirstLen, sc.ClientLens, sc.TargetLens, sc.TargetFirst, sc.CloseFirst, sc.PostEOFLen, sc.Fail, sc.UpCode, sc.Reset, sc.Plain)
 }
 
 type result struct {
@@ -189,7 +206,11 @@ func evalOne(sc Scenario, ev *env, m *modelClient) result {
 		return res
 	}
 	for res.tries = 1; ; res.tries++ {
-		res.obs, res.err = runScenario(&sc, ev)
+		if sc.Plain {
+			res.obs, res.vs, res.err = runPlainHTTP(&sc, ev)
+		} else {
+			res.obs, res.err = runScenario(&sc, ev)
+		}
 		// a session that ran into the harness's own time limit, or a relay that did not come up, is retried once:
 		// the sandbox is shared with other builders
 		if !infraTrouble(&res.obs, res.err) || res.tries == 2 {
@@ -203,7 +224,13 @@ func evalOne(sc Scenario, ev *env, m *modelClient) result {
 		res.envSkip = "unreach"
 		return res
 	}
-	res.vs = oracle(&sc, &res.obs)
+	if !sc.Plain {
+		res.vs = oracle(&sc, &res.obs)
+	}
+	if sc.Plain && sc.Fail == "" && !res.obs.Dialed {
+		res.modelOK = true // nothing to compare: the oracle has reported it
+		return res
+	}
 	if m == nil {
 		res.modelOK = true
 		return res
@@ -256,6 +283,9 @@ func record(rep *common.Report, res *result) {
 	rep.Case(sig(sc), nontrivial)
 	rep.Count("pair:" + sc.Server + ">" + sc.Client)
 	rep.Count("timing:" + sc.Timing)
+	if sc.Plain {
+		rep.Count("http:plain")
+	}
 	if sc.Fail != "" {
 		rep.Count("fail:" + sc.Fail)
 	} else if sc.Reset != "" {
@@ -290,7 +320,7 @@ func main() {
 	rep := common.NewReport("C13", o)
 	rep.Engines = []string{"tcprelay"}
 	rep.Rule = "engine tcprelay: one scripted session per case through a fresh relay built from a JSON service.Config on loopback; " +
-		"server protocols {direct, none, socks5, socks5+auth, http CONNECT, http+auth, ss2022} x client protocols {direct, direct+TFO, socks5, http, none, ss2022} " +
+		"server protocols {direct, none, socks5, socks5+auth, http CONNECT, http+auth, ss2022, ss2022 multi-user (uPSK store, identity header)} x client protocols {direct, direct+TFO, socks5, http, none, ss2022} " +
 		"(proxy clients terminated by harness-side servers); initialPayloadWaitTimeout 50-100 ms, wait buffer {default,1,16,100,1440,4096}; " +
 		"client timing {early, coalesced with the request, at the deadline, late, never (server speaks first), EOF with data, EOF without}; first-write sizes around the buffer size; " +
 		"either side closes first and the other keeps writing after it saw the EOF; one success scenario in four ends with a copy ERROR after data was relayed " +
